@@ -67,7 +67,7 @@ def too_many_hangs(stats=None):
         if stats is not None:
             stats["stopped_at_deep_search_cap_s"] = common.ORACLE_CAP[0][1]
         return True
-    if _NVIOL[0] >= 60:
+    if common.ORACLE_CAP[0] is not None and _NVIOL[0] >= 60:      # (deep search only: known findings count here too)
         if stats is not None:
             stats["stopped_after_violations"] = _NVIOL[0]
         return True
